@@ -42,6 +42,12 @@ impl Scratch {
     pub fn path(&self, name: &str) -> PathBuf {
         self.dir.join(name)
     }
+    /// a path at which a LONGER file already exists: tools that write an output file must
+    /// replace it, not overwrite its beginning
+    pub fn stale(&self, name: &str) -> PathBuf {
+        let junk = "stale,content\nof \"an\" earlier } run ] -> --\n".repeat(400);
+        self.file(name, junk.as_bytes())
+    }
 }
 
 impl Default for Scratch {
